@@ -545,6 +545,14 @@ def mon_C03(blocks):
                 t0, ep = g.last_ok[sid]
                 if ep == a.epoch and b.t - t0 < a.cfg["sessionExpiry"] - gran(a.codec) and d in ("refuse",) and why == "stale":
                     out.append(Violation(b.idx, "session accessed %d ago (< SessionExpiry %d) was expired" % (b.t - t0, a.cfg["sessionExpiry"])))
+                # ... also when the state the package holds says "fresh" (the cached object) and the session is refused all the
+                # same, as if judged by the older access time in the store
+                fs = a.pre_store.get(v)
+                if (ep == a.epoch and b.t - t0 < a.cfg["sessionExpiry"] - gran(a.codec) and d == "serve" and b.ret in ("nil", "sess")
+                        and any(c["value"] == "deleted" for c in b.cks) and v in a.pre_cache
+                        and fs and fs != "undecodable" and b.t - la(fs) >= a.cfg["sessionExpiry"] and v not in b.store):
+                    out.append(Violation(b.idx, "session accessed %d ago (< SessionExpiry %d) was expired: judged by the access time in the store "
+                                                "(%d ago) although a newer one was in memory" % (b.t - t0, a.cfg["sessionExpiry"], b.t - la(fs))))
         if k == "h" and b.tok[1] == "expired" and b.ret == "b1" and a.req is not None:
             # Expired() on the session a request was just given: true only if a request now would refuse it
             ss = b.ss
